@@ -19,5 +19,6 @@ ok = ok and r.returncode == 0
 common.use_repo()
 import pymtl3  # noqa
 print("pymtl3 from", os.path.dirname(pymtl3.__file__))
-os.chmod(os.path.join(common.VERIF, "harness", "bin", "xdg-open"), 0o755)
+for _b in ("xdg-open", "dot"):
+    os.chmod(os.path.join(common.VERIF, "harness", "bin", _b), 0o755)
 sys.exit(0 if ok else 1)
